@@ -142,6 +142,9 @@ enum Expect {
     Data(Vec<u8>),
     Err(&'static str),
     Open,
+    /// an LZ10 stream behind the 0x13 wrapper: the statement does not say whether the LZ13
+    /// entry point accepts it, but IF it does the data must be the encoded data
+    DataOrErr(Vec<u8>),
 }
 
 fn expect_bare(bytes: &[u8], kind: Kind) -> Expect {
@@ -187,7 +190,10 @@ fn expectation(entry: Entry, bytes: &[u8]) -> Expect {
             }
             match inner[0] {
                 0x11 => expect_bare(inner, Kind::Lz11),
-                0x10 => Expect::Open,
+                0x10 => match expect_bare(inner, Kind::Lz10) {
+                    Expect::Data(d) => Expect::DataOrErr(d),
+                    other => other, // truncated / reference before the start: an error whatever the wrapper
+                },
                 _ => Expect::Err("unknown-type"),
             }
         }
@@ -205,6 +211,7 @@ fn check(entry: Entry, bytes: &[u8], what: &str, t: &mut Tally) -> Option<(Strin
                 Expect::Err(c) => *c,
                 Expect::Data(_) => "conforming",
                 Expect::Open => "unspecified",
+                Expect::DataOrErr(_) => "wrapped-lz10",
             };
             return Some((
                 format!("panic@{}:{}", p.location, cls),
@@ -217,6 +224,18 @@ fn check(entry: Entry, bytes: &[u8], what: &str, t: &mut Tally) -> Option<(Strin
         (Expect::Open, _) => {
             t.class("unspecified-no-panic");
             None
+        }
+        (Expect::DataOrErr(_), Err(_)) => {
+            t.class("wrapped-lz10-rejected");
+            None
+        }
+        (Expect::DataOrErr(d), Ok(g)) => {
+            if d == g {
+                t.class("wrapped-lz10-ok");
+                None
+            } else {
+                Some((format!("wrong-data:{:?}:wrapped-lz10", entry), format!("{:?}.decompress({}) accepted an LZ10 stream behind the 0x13 wrapper but returned {} bytes that differ from the reference expansion ({} bytes)", entry, what, g.len(), d.len())))
+            }
         }
         (Expect::Data(d), Ok(g)) => {
             if d == g {
@@ -292,7 +311,7 @@ fn run_stream_case(s: &Spec, idx: u64, t: &mut Tally) {
     for e in ENTRIES {
         let r = check(e, &stream, "bare stream", t);
         report(r, "bare".into(), t);
-        if s.kind == Kind::Lz11 && e.is_lz13() {
+        if e.is_lz13() {
             let r = check(e, &wrapped, "0x13-wrapped stream", t);
             report(r, "wrapped".into(), t);
         }
@@ -315,7 +334,7 @@ fn run_stream_case(s: &Spec, idx: u64, t: &mut Tally) {
             let r = check(e, &stream[..c], "strict prefix of a conforming stream", t);
             report(r, format!("prefix:{}", c), t);
         }
-        if s.kind == Kind::Lz11 {
+        {
             let r = check(Entry::Lz13, &wrapped[..c + 4], "strict prefix of a wrapped stream", t);
             report(r, format!("wprefix:{}", c + 4), t);
         }
@@ -336,7 +355,7 @@ fn run_stream_case(s: &Spec, idx: u64, t: &mut Tally) {
                         let r = check(e, &bad, "stream with a reference before the start of output", t);
                         report(r, format!("badref:{}:{}", ti, k), t);
                     }
-                    if s.kind == Kind::Lz11 {
+                    {
                         let r = check(Entry::Lz13Enum, &wrap13(&bad), "wrapped stream with a reference before the start of output", t);
                         report(r, format!("wbadref:{}:{}", ti, k), t);
                     }
@@ -422,6 +441,8 @@ fn history_streams() -> Vec<Vec<u8>> {
     v
 }
 
+const HUGE_REFS: [usize; 6] = [255, 256, 1000, 2040, 2041, 4100];
+
 fn run_case(tier: Tier, fam: &str, idx: u64, t: &mut Tally) {
     if fam == "arb" {
         let b = arb_nth(idx);
@@ -435,11 +456,13 @@ fn run_case(tier: Tier, fam: &str, idx: u64, t: &mut Tally) {
     }
     if fam == "lz11huge" {
         // LZ11 streams of 16 MiB and more use the 8-byte header (24-bit size 0, 32-bit size follows)
+        // expansions of 16.0, 16.1, 63, 128.03 (just above 2^27), 128.1 and 257 MiB
+        let refs = HUGE_REFS[idx as usize];
         let mut toks = vec![Token::Lit(0x5A)];
-        for _ in 0..(255 + idx as usize) {
+        for _ in 0..refs {
             toks.push(Token::Ref { len: 65_808, disp: 1 });
         }
-        let total: usize = 1 + (255 + idx as usize) * 65_808;
+        let total: usize = 1 + refs * 65_808;
         let stream = ref_lz::encode(&toks, Kind::Lz11, total, None);
         t.cases += 1;
         t.nontrivial += 1;
@@ -499,7 +522,7 @@ fn families(tier: Tier) -> Vec<Family> {
     let mut f: Vec<Family> = specs(tier).iter().map(|s| Family::new(s.tag.clone(), spec_count(s))).collect();
     f.push(Family::new("arb", arb_count()));
     f.push(Family::new("stored", stored_cases().len() as u64));
-    f.push(Family::new("lz11huge", 2));
+    f.push(Family::new("lz11huge", HUGE_REFS.len() as u64));
     let h = history_streams().len() as u64;
     f.push(Family::new("hist", h * h));
     f
